@@ -12,7 +12,7 @@ from props.c01 import nm, em, em_ref
 from props import c02, c03
 
 PROP = 'C06'
-LEAN_TARGETS = ['CGV.Props.C06', 'CGV.Props.C06Steps']
+LEAN_TARGETS = ['CGV.Props.C06', 'CGV.Props.C06Steps', 'CGV.Props.C06Trace']
 RULE = ('fragmented molecules whose fragments are grouped hierarchically into 1-2 intermediate coarse levels (unique '
         'labels per level, intermediate descriptors carrying the number of bonds they stand for), atomistic and coarse '
         'last level; every step executed by implementation and Lean model (exact dumps, chained through the levels); '
